@@ -48,7 +48,7 @@ func sameObs(a, b Obs) bool {
 func Check(c *core.Ctx) (map[string]any, []string, error) {
 	nProg := 4000
 	if c.Thorough() {
-		nProg = 60000
+		nProg = 20000
 	}
 	if s := os.Getenv("VERIF_C01_PROGRAMS"); s != "" {
 		fmt.Sscan(s, &nProg)
